@@ -29,21 +29,36 @@ PMAPS = {
 VALUES = {'k': [0.5, 2.0, 3.5], 'w': [-1.0, 0.75, 4.0], 'x0': [0.2, 0.9, 1.4]}
 
 
-def build(name):
+EDGES = {'two': [('a/so/x', 'b/to/u', 2.0), ('b/so/x', 'a/to/u', 0.5)],
+         'par': [('a/so/x', 'b/to/u', 2.0), ('a/so/x', 'b/to/u', -0.75), ('a/so/x', 'b/to/u', 0.375), ('b/so/x', 'a/to/u', 0.5)],
+         'three': [('a/so/x', 'b/to/u', 2.0), ('cc/so/x', 'b/to/u', -0.25), ('b/so/x', 'cc/to/u', 1.25)]}
+
+
+def build(name, node_over=None, edge_over=None):
+    """the sweep template (all nodes share ONE NodeTemplate object); with node_over / edge_over: the same circuit written
+    out explicitly - one node template per node that carries its values, weights given in the edge list - without any
+    use of update_var (reference for a single grid row)"""
     from pyrates import OperatorTemplate, NodeTemplate, CircuitTemplate
     so = OperatorTemplate('so', equations=["d/dt * x = -k*x"], variables={'x': 'output(0.6)', 'k': 1.5})
     to = OperatorTemplate('to', equations=["d/dt * v = -c*v + u"], variables={'v': 'output(0.1)', 'u': 'input(0.0)', 'c': 1.0})
-    n = NodeTemplate('n', operators=[so, to])
-    if name == 'two':
-        return CircuitTemplate('net', nodes={'a': n, 'b': n},
-                               edges=[('a/so/x', 'b/to/u', None, {'weight': 2.0}), ('b/so/x', 'a/to/u', None, {'weight': 0.5})])
-    if name == 'par':
-        return CircuitTemplate('net', nodes={'a': n, 'b': n},
-                               edges=[('a/so/x', 'b/to/u', None, {'weight': 2.0}), ('a/so/x', 'b/to/u', None, {'weight': -0.75}),
-                                      ('a/so/x', 'b/to/u', None, {'weight': 0.375}), ('b/so/x', 'a/to/u', None, {'weight': 0.5})])
-    return CircuitTemplate('net', nodes={'a': n, 'b': n, 'cc': n},
-                           edges=[('a/so/x', 'b/to/u', None, {'weight': 2.0}), ('cc/so/x', 'b/to/u', None, {'weight': -0.25}),
-                                  ('b/so/x', 'cc/to/u', None, {'weight': 1.25})])
+    labels = ['a', 'b'] + (['cc'] if name == 'three' else [])
+    if node_over is None and edge_over is None:
+        n = NodeTemplate('n', operators=[so, to])
+        nodes = {l: n for l in labels}
+    else:
+        nodes = {}
+        for l in labels:
+            ov = {'so': {}, 'to': {}}
+            for key, val in (node_over or {}).get(l, {}).items():
+                o_, v_ = key.split('/')
+                ov[o_][v_] = val
+            nodes[l] = NodeTemplate(f'n_{l}', operators={so: ov['so'], to: ov['to']})
+    edges, seen = [], {}
+    for s_, t_, w in EDGES[name]:
+        i = seen.get((s_, t_), 0)
+        seen[(s_, t_)] = i + 1
+        edges.append((s_, t_, None, {'weight': (edge_over or {}).get((s_, t_, i), w)}))
+    return CircuitTemplate('net', nodes=nodes, edges=edges)
 
 
 def cases(tier, seed):
@@ -103,7 +118,9 @@ def run_case(case):
     for v in pmap.values():
         if 'edges' in v:
             v['edges'] = [tuple(e) for e in v['edges']]
-    outs = {'x': 'a/so/x', 'v': 'b/to/v'}
+    # every state variable of every node is observed (a sweep must not reach nodes it does not address)
+    node_labels = ['a', 'b'] + (['cc'] if case['circuit'] == 'three' else [])
+    outs = {f'{v_}_{n_}': f'{n_}/{o_}/{v_}' for n_ in node_labels for o_, v_ in (('so', 'x'), ('to', 'v'))}
     inp = 0.05 * np.arange(STEPS, dtype=float) ** 2 - 0.1 if case['input'] else None
     kw = dict(step_size=DT, simulation_time=STEPS * DT, sampling_step_size=DT, solver=case['solver'],
               vectorize=case['vectorize'], verbose=False, float_precision='float64', backend='default', clear=True)
@@ -134,23 +151,17 @@ def run_case(case):
     for idx in table.index:
         params = {k: float(table.loc[idx, k]) for k in keys}
         pool.fresh_state()
-        c = build(case['circuit'])
-        node_updates, edge_updates = {}, []
+        node_over, edge_over = {}, {}
         for k, val in params.items():
             pm = PMAPS[case['pmap']][k]
             if 'nodes' in pm:
                 for n in pm['nodes']:
                     for v in pm['vars']:
-                        node_updates[f'{n}/{v}'] = val
+                        node_over.setdefault(n, {})[v] = val
             else:
                 for s, t, *eidx in pm['edges']:
-                    for v in pm['vars']:
-                        if eidx:
-                            # the idx-th of several parallel edges: written into that edge's own attribute dictionary
-                            c.get_edge(s, t, eidx[0])[3][v] = val
-                        else:
-                            edge_updates.append((s, t, {v: val}))
-        c.update_var(node_vars=node_updates, edge_vars=edge_updates)
+                    edge_over[(s, t, eidx[0] if eidx else 0)] = val
+        c = build(case['circuit'], node_over=node_over, edge_over=edge_over)
         kw2 = dict(kw)
         kw2.pop('simulation_time')
         kw2.pop('step_size')
